@@ -136,7 +136,10 @@ def compareTypesF : Nat → ZTy → ZTy → Int
   | fuel + 1, a, b =>
     if a.under = b.under then
       match a, b with
-      | .named na _, .named nb _ => cmpBytes na nb
+      | .named na ta, .named nb tb =>
+        -- ordered by name, then by the types they name (repo commit 2f4e3fba9)
+        let c := cmpBytes na nb
+        if c ≠ 0 then c else compareTypesF fuel ta tb
       | .named _ _, _ => 1
       | _, .named _ _ => -1
       | _, _ => 0
